@@ -27,6 +27,22 @@ pub struct OracleState {
     pub idle_model: Vec<u32>,
     pub model_ordered: bool,
     pub last_op_of_actor: BTreeMap<usize, usize>,
+    /// whether idle_prev reflects the books at the end of the previous step
+    pub idle_prev_valid: bool,
+    /// idle ids at the start of the step in which a retain() ran its predicate (per op)
+    pub retain_idle_at_lock: BTreeMap<usize, Vec<u32>>,
+    pub last_run_step: BTreeMap<usize, u64>,
+    /// objects idle right before close() was invoked
+    pub idle_at_close: Vec<u32>,
+    pub closer: Option<usize>,
+    /// gets that must observe Closed (waiting, un-woken, parked when close() returned)
+    pub must_close: Vec<usize>,
+    /// resize bookkeeping: ops in progress and the step the last one returned
+    pub resizes_in_progress: usize,
+    pub last_resize_done: Option<u64>,
+    pub parked_pending: std::collections::BTreeSet<usize>,
+    /// C07: (limit, objects counted so far, returns still in flight)
+    pub deferred_admissions: Vec<(usize, usize, Vec<u32>)>,
 }
 
 impl Default for OracleState {
@@ -45,12 +61,27 @@ impl Default for OracleState {
             idle_model: Vec::new(),
             model_ordered: true,
             last_op_of_actor: BTreeMap::new(),
+            idle_prev_valid: false,
+            retain_idle_at_lock: BTreeMap::new(),
+            last_run_step: BTreeMap::new(),
+            idle_at_close: Vec::new(),
+            closer: None,
+            must_close: Vec::new(),
+            resizes_in_progress: 0,
+            last_resize_done: None,
+            parked_pending: Default::default(),
+            deferred_admissions: Vec::new(),
         }
     }
 }
 
 fn is(w: &MWorld, p: &str) -> bool {
     w.sc.profile == p
+}
+
+/// Slots that can still be acquired: available permits minus those owed to a shrink.
+pub fn eff(s: &deadpool::managed::VerifSnapshot) -> isize {
+    s.permits as isize - s.debt as isize
 }
 
 pub struct Snap {
@@ -75,6 +106,9 @@ pub fn on_call(w: &mut MWorld, ci: usize) {
     }
     if is(w, "C13") {
         c13_on_call(w, ci);
+    }
+    if is(w, "C07") && kind == CallKind::Create {
+        c07_on_create(w, ci);
     }
     if kind == CallKind::Create && is(w, "C01") && !w.draining {
         let n = w.n_live() + w.n_inflight_creates() + 1;
@@ -138,6 +172,13 @@ pub fn on_get_return(w: &mut MWorld, opi: usize) {
             }
         }
     }
+    if is(w, "C06") && !w.draining {
+        if let Some(v) = c06_get_return(w, opi) {
+            if w.pending_violation.is_none() {
+                w.pending_violation = Some(v);
+            }
+        }
+    }
     if is(w, "C04") {
         if let Some(v) = c04_check_get(w, opi) {
             if w.pending_violation.is_none() {
@@ -149,10 +190,35 @@ pub fn on_get_return(w: &mut MWorld, opi: usize) {
 pub fn on_return_invoke(_w: &mut MWorld, _opi: usize, _id: u32) {}
 pub fn on_return_done(w: &mut MWorld, opi: usize, _id: u32) {
     check_sync_panic(w, opi);
+    if w.ops[opi].actor != CONTROLLER && !w.draining {
+        let v = if is(w, "C07") {
+            c07_return_done(w, opi, _id)
+        } else if is(w, "C06") {
+            c06_return_done(w, opi, _id)
+        } else {
+            None
+        };
+        if let Some(v) = v {
+            if w.pending_violation.is_none() {
+                w.pending_violation = Some(v);
+            }
+        }
+    }
 }
-pub fn on_take_invoke(_w: &mut MWorld, _opi: usize, _id: u32) {}
+pub fn on_take_invoke(w: &mut MWorld, opi: usize, _id: u32) {
+    if is(w, "C09") {
+        c03_on_invoke(w, opi);
+    }
+}
 pub fn on_take_done(w: &mut MWorld, opi: usize, _id: u32) {
     check_sync_panic(w, opi);
+    if is(w, "C09") && !w.draining {
+        if let Some(v) = c09_take_done(w, opi, _id) {
+            if w.pending_violation.is_none() {
+                w.pending_violation = Some(v);
+            }
+        }
+    }
 }
 pub fn on_metrics_reported(w: &mut MWorld, id: u32, m: MSeen) {
     if is(w, "C13") {
@@ -164,7 +230,9 @@ pub fn on_metrics_reported(w: &mut MWorld, id: u32, m: MSeen) {
     }
     w.objs[id as usize].last_reported = Some(m);
 }
-pub fn on_resize_invoke(_w: &mut MWorld, _opi: usize, _n: usize) {}
+pub fn on_resize_invoke(w: &mut MWorld, opi: usize, _n: usize) {
+    c07_resize_invoke(w, opi);
+}
 pub fn on_resize_done(w: &mut MWorld, opi: usize, n: usize, closed: bool) {
     check_sync_panic(w, opi);
     if !closed && w.orc.closed_step.is_none() {
@@ -174,8 +242,17 @@ pub fn on_resize_done(w: &mut MWorld, opi: usize, n: usize, closed: bool) {
         }
         w.max_size_log.push((engine::current_step(), n));
     }
+    let v = c07_resize_done(w, opi, n, closed);
+    if is(w, "C07") && !w.draining {
+        if let Some(v) = v {
+            if w.pending_violation.is_none() {
+                w.pending_violation = Some(v);
+            }
+        }
+    }
 }
 pub fn on_close_invoke(w: &mut MWorld, _opi: usize) {
+    c06_close_invoke(w, _opi);
     w.orc.close_invoked = true;
     // a closing pool may already report max_size 0
     w.orc.shrunk = true;
@@ -185,11 +262,30 @@ pub fn on_close_done(w: &mut MWorld, opi: usize) {
     if w.orc.closed_step.is_none() {
         w.orc.closed_step = Some(engine::current_step());
         w.max_size_log.push((engine::current_step(), 0));
+        let v = c06_close_done(w, opi);
+        if is(w, "C06") && !w.draining {
+            if let Some(v) = v {
+                if w.pending_violation.is_none() {
+                    w.pending_violation = Some(v);
+                }
+            }
+        }
     }
 }
-pub fn on_retain_invoke(_w: &mut MWorld, _opi: usize) {}
+pub fn on_retain_invoke(w: &mut MWorld, opi: usize) {
+    if is(w, "C09") {
+        c03_on_invoke(w, opi);
+    }
+}
 pub fn on_retain_done(w: &mut MWorld, opi: usize) {
     check_sync_panic(w, opi);
+    if is(w, "C09") && !w.draining {
+        if let Some(v) = c09_retain_done(w, opi) {
+            if w.pending_violation.is_none() {
+                w.pending_violation = Some(v);
+            }
+        }
+    }
 }
 
 fn check_sync_panic(w: &mut MWorld, opi: usize) {
@@ -247,6 +343,19 @@ pub fn after_step(w: &mut MWorld, _info: &SimInfo) -> Option<Violation> {
         return Some(v);
     }
     let snap = snapshot(w);
+    if let crate::engine::Decision::Run(a) | crate::engine::Decision::Cancel(a) | crate::engine::Decision::Spurious(a) = _info.last {
+        let _ = w.orc.last_run_step.insert(a, _info.step);
+    }
+    if snap.is_none() {
+        w.orc.idle_prev_valid = false;
+    }
+    w.orc.parked_pending = _info
+        .states
+        .iter()
+        .enumerate()
+        .filter(|(_, s)| **s == AState::Pending)
+        .map(|(i, _)| i)
+        .collect();
     if is(w, "C01") {
         let live = w.n_live();
         let creating = w.n_inflight_creates();
@@ -288,12 +397,18 @@ pub fn after_step(w: &mut MWorld, _info: &SimInfo) -> Option<Violation> {
                 return Some(v);
             }
         }
+        if is(w, "C06") && !w.draining {
+            if let Some(v) = c06_step(w, sn) {
+                return Some(v);
+            }
+        }
         if is(w, "C08") && !w.draining {
             if let Some(v) = c08_step(w, _info, sn) {
                 return Some(v);
             }
         }
         w.orc.idle_prev = sn.idle.clone();
+        w.orc.idle_prev_valid = true;
     }
     None
 }
@@ -377,7 +492,7 @@ pub fn quiescent(w: &mut MWorld, info: &SimInfo) -> Option<Violation> {
     }
     let wt = classify_gets(w);
     let closed = w.orc.closed_step.is_some();
-    if is(w, "C02") || is(w, "C03") {
+    if is(w, "C02") || is(w, "C03") || is(w, "C07") {
         let pid = w.sc.profile.clone();
         if !closed && !w.orc.close_invoked {
             let free = w
@@ -419,6 +534,11 @@ pub fn quiescent(w: &mut MWorld, info: &SimInfo) -> Option<Violation> {
             .all(|s| matches!(s, AState::Pending | AState::Done));
     if rest {
         w.orc.rest_points += 1;
+        if is(w, "C06") {
+            if let Some(v) = c06_rest(w, "rest") {
+                return Some(v);
+            }
+        }
         if is(w, "C11") {
             if let Some(v) = c11_exact(w, &wt, "rest") {
                 return Some(v);
@@ -532,17 +652,27 @@ pub fn final_checks(w: &mut MWorld, probe_err: Option<String>) -> Option<Violati
         return Some(crate::engine::violation(prop, "capacity_probe", e));
     }
     if let Some(sn) = snapshot(w) {
-        if matches!(p.as_str(), "C02" | "C03") && !closed {
+        if p == "C06" {
+            if let Some(v) = c06_rest(w, "end") {
+                return Some(v);
+            }
+        }
+        if matches!(p.as_str(), "C02" | "C03" | "C07") && !closed {
             let max = w.cur_max_size();
-            if sn.s.permits != max || sn.s.users != 0 || sn.s.size != sn.s.idle {
+            if eff(&sn.s) != max as isize || sn.s.users != 0 || sn.s.size != sn.s.idle {
                 return Some(crate::engine::violation(
                     &p,
                     "books_at_end",
                     format!(
-                        "after everything was returned: permits {} (max_size {}), users {}, size {}, idle {}",
-                        sn.s.permits, max, sn.s.users, sn.s.size, sn.s.idle
+                        "after everything was returned: {} slot(s) can be acquired (max_size {}), users {}, size {}, idle {}",
+                        eff(&sn.s), max, sn.s.users, sn.s.size, sn.s.idle
                     ),
                 ));
+            }
+        }
+        if p == "C09" {
+            if let Some(v) = c09_final(w) {
+                return Some(v);
             }
         }
         if p == "C04" {
@@ -1180,8 +1310,8 @@ pub fn c03_on_return(w: &mut MWorld, opi: usize) -> Option<Violation> {
             format!("get abandoned at {point} ({mode}) with nothing else running: {what}"),
         )
     };
-    if sn.s.permits != s0.permits {
-        return mk("slot_released", format!("semaphore permits {} before, {} after", s0.permits, sn.s.permits));
+    if eff(&sn.s) != eff(&s0) {
+        return mk("slot_released", format!("acquirable slots {} before, {} after", eff(&s0), eff(&sn.s)));
     }
     if sn.s.users != s0.users {
         return mk("users_restored", format!("users counter {} before, {} after", s0.users, sn.s.users));
@@ -1204,5 +1334,455 @@ pub fn c03_on_return(w: &mut MWorld, opi: usize) -> Option<Violation> {
     if st1 != exp {
         return mk("status_restored", format!("status() {:?} before, {:?} after, expected {:?}", st0, st1, exp));
     }
+    None
+}
+
+// ---- C09: retain / take / detach keep the books straight --------------------------------
+
+fn c09(clause: &str, d: String) -> Option<Violation> {
+    Some(crate::engine::violation("C09", clause, d))
+}
+
+fn overlapped(w: &MWorld, opi: usize) -> bool {
+    let op = &w.ops[opi];
+    let now = engine::current_step();
+    w.ops.iter().enumerate().any(|(i, o)| {
+        i != opi
+            && o.actor != op.actor
+            && o.actor != CONTROLLER
+            && o.invoke_step <= now
+            && o.return_step.unwrap_or(u64::MAX) >= op.invoke_step
+    })
+}
+
+pub fn c09_retain_done(w: &mut MWorld, opi: usize) -> Option<Violation> {
+    let op = w.ops[opi].clone();
+    let Some(OpRes::Retained { retained, removed }) = op.result.clone() else { return None };
+    let preds: Vec<(u32, bool, u64)> = op
+        .calls
+        .iter()
+        .map(|c| &w.calls[*c])
+        .filter(|c| c.kind == CallKind::Pred)
+        .map(|c| (c.obj.unwrap(), c.res == CallRes::Keep(true), c.step))
+        .collect();
+    let rejected: Vec<u32> = preds.iter().filter(|p| !p.1).map(|p| p.0).collect();
+    let accepted = preds.iter().filter(|p| p.1).count();
+    if removed != rejected {
+        return c09(
+            "retain_removes_exactly_rejected",
+            format!("predicate rejected {:?} but retain() returned removed = {:?}", rejected, removed),
+        );
+    }
+    if retained != accepted {
+        return c09(
+            "retained_count",
+            format!("predicate accepted {} object(s) but retain() reports retained = {}", accepted, retained),
+        );
+    }
+    // each idle object present when the lock was taken is offered exactly once
+    let mut seen: Vec<u32> = preds.iter().map(|p| p.0).collect();
+    seen.sort();
+    let mut dedup = seen.clone();
+    dedup.dedup();
+    if dedup.len() != seen.len() {
+        return c09("predicate_once_per_object", format!("predicate called more than once for an object: {:?}", seen));
+    }
+    if let Some(idle) = w.orc.retain_idle_at_lock.remove(&opi) {
+        let mut idle = idle;
+        idle.sort();
+        if idle != seen {
+            return c09(
+                "predicate_sees_every_idle_object",
+                format!("idle objects when retain() took the lock: {:?}; predicate was called for {:?}", idle, seen),
+            );
+        }
+        w.cnt.probe("retain_idle_set_checked");
+    }
+    // never a checked-out object
+    for (id, _, _) in &preds {
+        if w.objs[*id as usize].holder.is_some() {
+            return c09("retain_never_touches_checked_out", format!("predicate was called for checked-out object #{id}"));
+        }
+    }
+    // capacity unchanged (differential, nothing else running)
+    if !overlapped(w, opi) {
+        if let (Some((s0, _, _)), Some(sn)) = (op.snap0.clone(), snapshot(w)) {
+            if eff(&sn.s) != eff(&s0) || sn.s.max_size != s0.max_size {
+                return c09(
+                    "retain_keeps_capacity",
+                    format!("retain() changed permits {} -> {} / max_size {} -> {}", s0.permits, sn.s.permits, s0.max_size, sn.s.max_size),
+                );
+            }
+            if sn.s.size != s0.size - removed.len() {
+                return c09(
+                    "retain_shrinks_size_by_removed",
+                    format!("size {} before, {} after, {} removed", s0.size, sn.s.size, removed.len()),
+                );
+            }
+            w.cnt.probe("retain_differential_checked");
+        }
+    }
+    None
+}
+
+pub fn c09_take_done(w: &mut MWorld, opi: usize, id: u32) -> Option<Violation> {
+    let op = w.ops[opi].clone();
+    match &op.result {
+        Some(OpRes::Taken(got)) => {
+            if *got != id {
+                return c09("take_returns_inner_value", format!("Object::take of #{id} returned #{got}"));
+            }
+        }
+        _ => return None,
+    }
+    if !overlapped(w, opi) && !w.orc.shrunk {
+        if let (Some((s0, idle0, _)), Some(sn)) = (op.snap0.clone(), snapshot(w)) {
+            if sn.s.size != s0.size - 1 {
+                return c09("take_shrinks_size", format!("size {} before take, {} after", s0.size, sn.s.size));
+            }
+            if eff(&sn.s) != eff(&s0) + 1 && !s0.closed {
+                return c09(
+                    "take_frees_slot",
+                    format!("permits {} before take, {} after (slot not freed exactly once)", s0.permits, sn.s.permits),
+                );
+            }
+            if sn.idle != idle0 || sn.s.users != s0.users - 1 {
+                return c09(
+                    "take_books",
+                    format!("idle {:?} -> {:?}, users {} -> {}", idle0, sn.idle, s0.users, sn.s.users),
+                );
+            }
+            w.cnt.probe("take_differential_checked");
+        }
+    }
+    None
+}
+
+/// Detach ledger, evaluated while the pool is still alive.
+pub fn c09_final(w: &MWorld) -> Option<Violation> {
+    for (id, o) in w.objs.iter().enumerate() {
+        let n = o.detach_seqs.len();
+        if o.destroyed.is_some() && !o.pool_gone {
+            // the pool let go of it while it was alive (taken, removed by retain, rejected,
+            // surplus on return, released by shrink or close)
+            let how = if o.taken {
+                "taken"
+            } else if o.retain_removed {
+                "removed by retain"
+            } else if o.dead {
+                "rejected while recycling / after creation"
+            } else {
+                "released by the pool (surplus on return, shrink or close)"
+            };
+            if n != 1 {
+                return c09(
+                    "detach_exactly_once",
+                    format!("object #{id} was {how} but Manager::detach was called {n} times for it"),
+                );
+            }
+            if o.detach_seqs[0] > o.destroyed_seq {
+                return c09("detach_before_destruction", format!("object #{id} ({how}) was detached after its destructor ran"));
+            }
+        } else if o.destroyed.is_none() && n != 0 {
+            return c09(
+                "no_detach_for_pooled_object",
+                format!("object #{id} is still in the pool (or in a caller's hands) but was detached {n} time(s)"),
+            );
+        }
+    }
+    None
+}
+
+// ---- C07: resize() makes the new limit effective in both directions -----------------------
+
+fn c07(clause: &str, d: String) -> Option<Violation> {
+    Some(crate::engine::violation("C07", clause, d))
+}
+
+/// In-progress gets that are still waiting for a slot, split into those that are parked
+/// and un-woken (subject to a resize/close that returns now) and the rest (exempt).
+fn waiting_gets_subject(w: &MWorld, by_actor: usize) -> (Vec<usize>, Vec<usize>) {
+    let wakes = engine::wakes_since(0);
+    let mut subject = Vec::new();
+    let mut exempt = Vec::new();
+    for opi in gets_in_progress(w) {
+        let op = &w.ops[opi];
+        if op.actor == CONTROLLER {
+            continue;
+        }
+        if !op.calls.is_empty() || op.permit_step.is_some() {
+            continue; // past the wait phase: not a waiter at all
+        }
+        let parked = w.orc.parked_pending.contains(&op.actor);
+        let last_run = w.orc.last_run_step.get(&op.actor).copied().unwrap_or(0);
+        let woken = wakes
+            .iter()
+            .any(|(step, a, by)| *a == op.actor && *step >= last_run && *by != by_actor);
+        if parked && !woken {
+            subject.push(opi);
+        } else {
+            exempt.push(opi);
+        }
+    }
+    (subject, exempt)
+}
+
+pub fn c07_resize_invoke(w: &mut MWorld, opi: usize) {
+    w.orc.resizes_in_progress += 1;
+    c03_on_invoke(w, opi);
+}
+
+pub fn c07_resize_done(w: &mut MWorld, opi: usize, n: usize, closed: bool) -> Option<Violation> {
+    w.orc.resizes_in_progress -= 1;
+    let s = engine::current_step();
+    w.orc.last_resize_done = Some(s);
+    if closed {
+        return None;
+    }
+    // gets already granted a slot (woken / mid-poll) are legal residue of the old limit
+    let actor = w.ops[opi].actor;
+    let (_subject, exempt) = waiting_gets_subject(w, usize::MAX - 1);
+    let _ = actor;
+    for g in exempt {
+        w.ops[g].exempt_resize = Some(s);
+    }
+    if w.orc.resizes_in_progress > 0 || overlapped(w, opi) {
+        return None;
+    }
+    let sn = snapshot(w)?;
+    w.cnt.probe("resize_differential_checked");
+    if sn.s.max_size != n {
+        return c07("max_size_reported", format!("after resize({n}) returned the pool's max_size is {}", sn.s.max_size));
+    }
+    if let Some(st) = status_of(w) {
+        if st.max_size != n {
+            return c07("max_size_reported", format!("after resize({n}) returned status().max_size is {}", st.max_size));
+        }
+    }
+    if sn.idle.len() > n {
+        return c07(
+            "surplus_idle_released",
+            format!("after resize({n}) returned {} idle objects remain: {:?}", sn.idle.len(), sn.idle),
+        );
+    }
+    // books: with nothing else running, available slots = limit - objects that exist
+    let live = w.n_live();
+    let expect_permits = n as isize - (w.n_out() + classify_gets(w).past.len()) as isize;
+    if eff(&sn.s) != expect_permits {
+        return c07(
+            "capacity_after_resize",
+            format!(
+                "after resize({n}) returned with nothing else running: {} slot(s) can still be acquired, but the limit leaves room for {} ({} objects exist, {} checked out)",
+                eff(&sn.s), expect_permits, live, w.n_out()
+            ),
+        );
+    }
+    None
+}
+
+/// Admission: a get that acquired its slot after the last resize returned must not
+/// create an object beyond the limit in force.
+pub fn c07_on_create(w: &mut MWorld, ci: usize) {
+    absorb_site_log(w);
+    let c = w.calls[ci].clone();
+    if c.actor == CONTROLLER || w.draining {
+        return;
+    }
+    let Some(opi) = c.op else { return };
+    let Some(s) = w.orc.last_resize_done else { return };
+    if w.orc.resizes_in_progress > 0 || w.orc.close_invoked {
+        return;
+    }
+    let op = &w.ops[opi];
+    let admitted_after = op.permit_step.map(|p| p > s).unwrap_or(false) && op.exempt_resize != Some(s);
+    if !admitted_after {
+        w.cnt.probe("create_by_get_admitted_before_resize");
+        return;
+    }
+    let n = w.cur_max_size();
+    let total = w.n_live() + w.n_inflight_creates() + 1;
+    // objects whose return is in progress on another thread may already have been released
+    // by the pool (destructor pending): they count only if that return ends up keeping them
+    let in_transit: Vec<u32> = w
+        .ops
+        .iter()
+        .filter(|o| matches!(o.op, Op::Return { .. }) && o.return_step.is_none())
+        .filter_map(|o| o.target)
+        .filter(|id| w.objs[*id as usize].destroyed.is_none())
+        .collect();
+    if total - in_transit.len() > n {
+        let d = format!(
+            "a get() admitted after resize({n}) returned creates an object although {} already exist or are being created",
+            total - 1 - in_transit.len()
+        );
+        w.violate("C07", "admitted_over_limit", d);
+    } else if total > n {
+        w.cnt.probe("admission_judged_after_pending_returns");
+        w.orc.deferred_admissions.push((n, total - in_transit.len(), in_transit));
+    } else {
+        w.cnt.probe("create_after_resize_within_limit");
+    }
+}
+
+/// A return that was in flight when a get created an object has finished.
+fn c07_settle_deferred(w: &mut MWorld, id: u32) -> Option<Violation> {
+    let kept = w.objs[id as usize].destroyed.is_none();
+    let mut bad = None;
+    for (n, count, pending) in w.orc.deferred_admissions.iter_mut() {
+        if let Some(pos) = pending.iter().position(|p| *p == id) {
+            let _ = pending.remove(pos);
+            if kept {
+                *count += 1;
+                if *count > *n {
+                    bad = Some((*n, *count));
+                }
+            }
+        }
+    }
+    w.orc.deferred_admissions.retain(|d| !d.2.is_empty());
+    bad.and_then(|(n, count)| {
+        c07(
+            "admitted_over_limit",
+            format!("a get() admitted after resize({n}) returned created an object while {} others existed (an object returned concurrently was kept)", count - 1),
+        )
+    })
+}
+
+pub fn c07_return_done(w: &mut MWorld, opi: usize, id: u32) -> Option<Violation> {
+    if let Some(v) = c07_settle_deferred(w, id) {
+        return Some(v);
+    }
+    let op = w.ops[opi].clone();
+    let s = w.orc.last_resize_done?;
+    if op.invoke_step <= s || w.orc.resizes_in_progress > 0 || w.orc.close_invoked || overlapped(w, opi) {
+        return None;
+    }
+    let kept = w.objs[id as usize].destroyed.is_none();
+    let n = w.cur_max_size();
+    let live = w.n_live();
+    if kept && live > n {
+        return c07(
+            "surplus_discarded_on_return",
+            format!("object #{id} came back while {live} objects exist (limit {n}) and was kept"),
+        );
+    }
+    if !kept {
+        w.cnt.probe("surplus_discarded_on_return");
+    }
+    None
+}
+
+// ---- C06: close() is prompt, final and leaves nothing behind ---------------------------------
+
+fn c06(clause: &str, d: String) -> Option<Violation> {
+    Some(crate::engine::violation("C06", clause, d))
+}
+
+pub fn c06_close_invoke(w: &mut MWorld, opi: usize) {
+    if w.orc.closer.is_none() {
+        w.orc.closer = Some(w.ops[opi].actor);
+        if w.orc.idle_prev_valid {
+            w.orc.idle_at_close = w.orc.idle_prev.clone();
+        }
+    }
+}
+
+pub fn c06_close_done(w: &mut MWorld, opi: usize) -> Option<Violation> {
+    let closer = w.ops[opi].actor;
+    let (subject, _exempt) = waiting_gets_subject(w, closer);
+    for g in subject {
+        if !w.orc.must_close.contains(&g) {
+            w.orc.must_close.push(g);
+        }
+    }
+    // objects that were idle when close() was called are released within the call
+    if !overlapped(w, opi) {
+        for id in w.orc.idle_at_close.clone() {
+            let o = &w.objs[id as usize];
+            if o.destroyed.is_none() {
+                return c06("idle_released_by_close", format!("object #{id} was idle when close() was called and still exists after it returned"));
+            }
+        }
+        w.cnt.probe("close_differential_checked");
+    }
+    None
+}
+
+pub fn c06_get_return(w: &mut MWorld, opi: usize) -> Option<Violation> {
+    let s = w.orc.closed_step?;
+    let op = w.ops[opi].clone();
+    let res = op.result.clone()?;
+    if op.invoke_step > s {
+        // invoked after close() returned
+        if res != OpRes::GetErr(ErrV::Closed) {
+            return c06("get_after_close_is_closed", format!("get() invoked after close() returned gave {:?}", res));
+        }
+        w.cnt.probe("get_after_close_closed");
+    } else if w.orc.must_close.contains(&opi) {
+        let ok = matches!(
+            res,
+            OpRes::GetErr(ErrV::Closed) | OpRes::Cancelled | OpRes::EnclosingTimeout | OpRes::GetErr(ErrV::TimeoutWait)
+        );
+        if !ok || !op.calls.is_empty() {
+            return c06(
+                "waiting_get_is_closed",
+                format!("a get() that was still waiting for a slot when close() returned gave {:?} (manager calls made: {})", res, op.calls.len()),
+            );
+        }
+        if res == OpRes::GetErr(ErrV::Closed) {
+            w.cnt.probe("waiting_get_closed");
+        }
+    }
+    None
+}
+
+pub fn c06_return_done(w: &mut MWorld, opi: usize, id: u32) -> Option<Violation> {
+    let s = w.orc.closed_step?;
+    let op = &w.ops[opi];
+    if op.invoke_step > s {
+        let o = &w.objs[id as usize];
+        if o.destroyed.is_none() {
+            return c06("returned_after_close_discarded", format!("object #{id} was returned after close() had returned and still exists"));
+        }
+        if o.detach_seqs.len() != 1 {
+            return c06("returned_after_close_detached", format!("object #{id} returned after close() was detached {} times", o.detach_seqs.len()));
+        }
+        w.cnt.probe("return_after_close_discarded");
+    }
+    None
+}
+
+/// Sampled after every step once close() has returned.
+pub fn c06_step(w: &mut MWorld, sn: &Snap) -> Option<Violation> {
+    w.orc.closed_step?;
+    if !sn.s.closed {
+        return c06("is_closed_stays_true", "is_closed() is false after close() returned".into());
+    }
+    if let Some(p) = w.pool.as_ref() {
+        if !p.is_closed() {
+            return c06("is_closed_stays_true", "is_closed() is false after close() returned".into());
+        }
+    }
+    if sn.s.max_size != 0 {
+        return c06("closed_max_size_zero", format!("max_size is {} after close() returned (resize after close must have no effect)", sn.s.max_size));
+    }
+    if let Some(st) = status_of(w) {
+        if st.max_size != 0 {
+            return c06("closed_max_size_zero", format!("status().max_size is {} after close() returned", st.max_size));
+        }
+    }
+    None
+}
+
+pub fn c06_rest(w: &mut MWorld, when: &str) -> Option<Violation> {
+    w.orc.closed_step?;
+    let sn = snapshot(w)?;
+    if !sn.idle.is_empty() {
+        return c06(
+            "closed_pool_keeps_nothing",
+            format!("at {when} point after close() returned the pool still holds idle objects {:?}", sn.idle),
+        );
+    }
+    w.cnt.probe("closed_pool_empty_at_rest");
     None
 }
